@@ -72,6 +72,9 @@ func c14CSSChild(args []string) int {
 				}
 			}()
 			n++
+			if strings.Count(v, ",")+strings.Count(v, " ") >= 4 && n%8 == 0 {
+				fmt.Fprintf(os.Stderr, "HUNT-INPUT %q %q\n", prop, v)
+			}
 			h(v)
 		}
 		for _, a := range pool {
@@ -432,8 +435,9 @@ func runC14(ctx *core.Ctx) {
 		for _, t := range acc[:k] {
 			jobs = append(jobs, ladderJob{familyByName("css-shorthand-repeat"), prop + "\x1f" + t, tokLadder(ctx.N(26, 40)), prop + " x " + t})
 		}
-		if k > 0 && ctx.N(0, 1) == 1 {
-			jobs = append(jobs, ladderJob{familyByName("css-shorthand-repeat-comma"), prop + "\x1f" + acc[0], tokLadder(30), prop + " x " + acc[0] + " (comma)"})
+		if k > 0 {
+			// comma-separated layers / lists: one ladder per property
+			jobs = append(jobs, ladderJob{familyByName("css-shorthand-repeat-comma"), prop + "\x1f" + acc[0], tokLadder(ctx.N(26, 40)), prop + " x " + acc[0] + " (comma)"})
 		}
 	}
 	// (b) structural families: doubling ladders
@@ -540,7 +544,8 @@ func runC14(ctx *core.Ctx) {
 		go func(b int) {
 			defer hw.Done()
 			defer func() { <-sem }()
-			res := core.RunChild("c14hunt", []string{fmt.Sprint(ctx.Seed), fmt.Sprint(b), fmt.Sprint(perBatch)}, 0, 900)
+			huntCPU := ctx.N(90, 400)
+			res := core.RunChild("c14hunt", []string{fmt.Sprint(ctx.Seed), fmt.Sprint(b), fmt.Sprint(perBatch)}, huntCPU, huntCPU*4+300)
 			cs := &core.Case{Ctx: ctx, Stream: "hunt", Index: b}
 			merged := false
 			if j := strings.LastIndex(string(res.Stdout), "\nVMON-CHILD-STATE "); j >= 0 {
@@ -551,6 +556,10 @@ func runC14(ctx *core.Ctx) {
 			switch {
 			case res.TimedOut:
 				ctx.Inconclusive(fmt.Sprintf("hunt batch %d hit the wall-clock watchdog", b))
+			case res.CPUKilled:
+				// a few thousand small inputs need seconds; exhausting minutes of CPU means one call stalled
+				cs.Violate("C14:cpu-limit:hunt", fmt.Sprintf("panic-hunt worker %d exhausted its %d s CPU limit on %d small inputs (signal %s): a call did not return promptly; last logged input: %s", b, huntCPU, perBatch, res.Signal, lastInput(res.Stderr)),
+					map[string]interface{}{"stderr": core.Clip(res.Stderr, 6000), "last_input": lastInput(res.Stderr)})
 			case !merged:
 				first := strings.SplitN(strings.TrimSpace(res.Stderr), "\n", 2)[0]
 				cs.Violate("C14:fatal:hunt:"+fatalClass(first), fmt.Sprintf("panic-hunt worker %d died (exit %d, signal %q): %s", b, res.Exit, res.Signal, core.Clip(first, 300)), map[string]interface{}{"stderr": core.Clip(res.Stderr, 6000), "last_input": lastInput(res.Stderr)})
@@ -568,7 +577,8 @@ func runC14(ctx *core.Ctx) {
 		go func(c int) {
 			defer hw.Done()
 			defer func() { <-sem }()
-			res := core.RunChild("c14css", []string{ctx.Tier, fmt.Sprint(c), fmt.Sprint(cssChunks)}, 0, 1200)
+			cssCPU := ctx.N(120, 600)
+			res := core.RunChild("c14css", []string{ctx.Tier, fmt.Sprint(c), fmt.Sprint(cssChunks)}, cssCPU, cssCPU*4+300)
 			merged := false
 			if j := strings.LastIndex(string(res.Stdout), "\nVMON-CHILD-STATE "); j >= 0 {
 				if ctx.MergeState([]byte(strings.TrimSpace(string(res.Stdout)[j+len("\nVMON-CHILD-STATE "):]))) == nil {
@@ -577,6 +587,9 @@ func runC14(ctx *core.Ctx) {
 			}
 			if res.TimedOut {
 				ctx.Inconclusive(fmt.Sprintf("css hunt chunk %d hit the wall-clock watchdog", c))
+			} else if res.CPUKilled {
+				cs := &core.Case{Ctx: ctx, Stream: "css-hunt", Index: c}
+				cs.Violate("C14:cpu-limit:css-hunt", fmt.Sprintf("css handler hunt worker %d exhausted its %d s CPU limit on values of at most 5 components (signal %s): a handler call did not return promptly; last logged value: %s", c, cssCPU, res.Signal, lastInput(res.Stderr)), map[string]interface{}{"stderr": core.Clip(res.Stderr, 4000)})
 			} else if !merged {
 				first := strings.SplitN(strings.TrimSpace(res.Stderr), "\n", 2)[0]
 				cs := &core.Case{Ctx: ctx, Stream: "css-hunt", Index: c}
@@ -654,7 +667,7 @@ func c14HuntChild(args []string) int {
 							map[string]interface{}{"policy": spec.Describe(env.Ops), "ops": env.Ops, "input": core.Show(in), "panic": fmt.Sprint(e), "stack": core.Clip(st, 4000), "entry_point": EntryNames[i%5]})
 					}
 				}()
-				if i%997 == 0 {
+				if i%97 == 0 || strings.Count(in, ",") > 12 || strings.Count(in, " ") > 60 {
 					// keep the most recent input recoverable if the process dies unrecoverably
 					fmt.Fprintf(os.Stderr, "HUNT-INPUT %q\n", core.Clip(in, 2000))
 				}
